@@ -24,6 +24,9 @@ pub enum WAct {
     Zero,
     /// fail hard with ENOSPC-like error; sticky
     Hard,
+    /// fail this call only with a non-Interrupted error (0 = WouldBlock/EAGAIN, 1 = TimedOut, 2 = EIO), nothing taken; the next
+    /// call is served again. A writer may report it, or resume exactly where it stood — never start the request over.
+    Once(u8),
 }
 
 impl WAct {
@@ -37,6 +40,7 @@ impl WAct {
             WAct::Eintr => "eintr",
             WAct::Zero => "zero",
             WAct::Hard => "hard",
+            WAct::Once(_) => "once",
         }
     }
     fn to_json(&self) -> Value {
@@ -46,9 +50,11 @@ impl WAct {
             WAct::Eintr => json!("eintr"),
             WAct::Zero => json!("zero"),
             WAct::Hard => json!("hard"),
+            WAct::Once(k) => json!({"once": k}),
         }
     }
     fn from_json(v: &Value) -> Option<WAct> {
+        if let Some(k) = v.get("once").and_then(|n| n.as_u64()) { return Some(WAct::Once(k as u8)); }
         if let Some(s) = v.as_str() {
             return match s {
                 "all_but_one" => Some(WAct::AllButOne),
@@ -118,14 +124,15 @@ pub struct FiredCounts {
     pub zero: u64,
     pub hard: u64,
     pub flush_fail: u64,
+    pub once: u64,
 }
 
 impl FiredCounts {
     pub fn any(&self) -> bool {
-        self.short + self.limit + self.eintr + self.zero + self.hard + self.flush_fail > 0
+        self.short + self.limit + self.eintr + self.zero + self.hard + self.flush_fail + self.once > 0
     }
     pub fn any_hard(&self) -> bool {
-        self.zero + self.hard + self.flush_fail > 0
+        self.zero + self.hard + self.flush_fail + self.once > 0
     }
     pub fn add(&mut self, o: &FiredCounts) {
         self.short += o.short;
@@ -134,10 +141,11 @@ impl FiredCounts {
         self.zero += o.zero;
         self.hard += o.hard;
         self.flush_fail += o.flush_fail;
+        self.once += o.once;
     }
     pub fn to_json(&self) -> Value {
         json!({"short_write": self.short, "acceptance_limit": self.limit, "eintr": self.eintr,
-               "ok_zero": self.zero, "hard_error": self.hard, "flush_error": self.flush_fail})
+               "ok_zero": self.zero, "hard_error": self.hard, "flush_error": self.flush_fail, "one_off_error_eagain_etimedout_eio": self.once})
     }
 }
 
@@ -235,6 +243,14 @@ impl io::Write for SimFd {
                     st.log.push((offset, buf.len(), -2));
                 }
                 return Err(hard_error_for(call));
+            }
+            Some(WAct::Once(kind)) => {
+                st.fired.once += 1;
+                st.fault_offsets.push((offset, "once"));
+                if st.keep_log {
+                    st.log.push((offset, buf.len(), -3));
+                }
+                return Err(match kind % 3 { 0 => io::Error::from(io::ErrorKind::WouldBlock), 1 => io::Error::from(io::ErrorKind::TimedOut), _ => io::Error::from_raw_os_error(5) });
             }
             Some(WAct::Short(n)) => {
                 if buf.len() > 1 {
@@ -441,7 +457,8 @@ pub fn random_write_plan(rng: &mut Rng, calls: usize, allow_hard: bool) -> Write
         0 => {
             // exactly one fault, placed inside the operation
             let at = rng.usize_below(calls);
-            let act = match rng.below(if allow_hard { 6 } else { 4 }) {
+            let act = match rng.below(if allow_hard { 7 } else { 4 }) {
+                6 => WAct::Once(rng.below(3) as u8),
                 0 => WAct::Short(1),
                 1 => WAct::AllButOne,
                 2 => WAct::Short(1 + rng.usize_below(16)),
